@@ -59,12 +59,15 @@ def fc_term(o, preset):
                 break
         else:
             return None      # a token outside every declaration: not a case for the model
+    # the model only compares token texts for equality: each distinct text is written as one number
+    code = {}
+    enc = lambda t: "[%d]" % code.setdefault(t, len(code))
     ds = []
     for d, ts in zip(info, per):
         ds.append("mkFdecl %d %s %s %s [%s]" % (d["rank"], "true" if d["sub"] else "false", nlist(bytes.fromhex(d["name"])),
-                                                 "true" if d["empty"] else "false", ";".join(nlist(t) for t in ts)))
+                                                 "true" if d["empty"] else "false", ";".join(enc(t) for t in ts)))
     obs = [tx for _, tx in prnlib.solid_erased(o["fmt"][preset]["tree1"])]
-    return "FC [%s] [%s]" % ("; ".join(ds), ";".join(nlist(t) for t in obs))
+    return "FC [%s] [%s]" % ("; ".join(ds), ";".join(enc(t) for t in obs))
 
 
 def run(ctx):
